@@ -46,7 +46,7 @@ def cps(s):
 def call(fn, s, plus=False, default=None):
     """One public call on the real code -> event (the trace judge's record format)."""
     from falcon import uri
-    e = {'fn': fn, 's': cps(s), 'plus': bool(plus), 'out': [], 'out2': [], 'port': -1, 'err': False, 'alt': [], 'alt0': [],
+    e = {'fn': fn, 's': cps(s), 'plus': bool(plus), 'out': [], 'out2': [], 'port': -1, 'err': False, 'alt': [], 'alt0': [], 'back': [], 'backp': [],
          'exc': ''}
     try:
         if fn == 'decode':
@@ -74,12 +74,18 @@ def call(fn, s, plus=False, default=None):
             out = f(s)
             if fn.endswith('check_escaped'):
                 e['out2'] = cps(f(out))
+            else:       # both ends in the code: decoding the encoded text must give the text back
+                try:
+                    e['back'] = cps(uri.decode(out, unquote_plus=False))
+                    e['backp'] = cps(uri.decode(out, unquote_plus=True)) if fn == 'encode_value' else e['back']
+                except Exception:
+                    e['back'] = e['backp'] = [-1]
         if not isinstance(out, str):
             raise TypeError('%s returned %r' % (fn, type(out)))
         e['out'] = cps(out)
     except Exception as ex:  # the property promises totality
         e['err'] = True
-        e['out'], e['out2'], e['port'], e['alt'], e['alt0'] = [], [], -1, [], []
+        e['out'], e['out2'], e['port'], e['alt'], e['alt0'], e['back'], e['backp'] = [], [], -1, [], [], [], []
         e['exc'] = repr(ex)[:200]
     return e
 
@@ -159,6 +165,7 @@ def run(ctx):
 
     suspects = []          # events where code and spec differ; TLC names the clause
     blocks = {True: [], False: []}      # closed decode blocks per plus flag: (s, bytes)
+    lowblocks = {True: [], False: []}
     encblocks = {'encode': [], 'encode_value': []}
     ctlblocks = {'encode': [], 'encode_value': []}      # enumerated blocks ending in a control character
     for c in cases:
@@ -172,6 +179,8 @@ def run(ctx):
                                      % (c['bytes'], want, viacodec))
             if c['closed'] and s:
                 blocks[c['plus']].append((s, bytes(c['bytes'])))
+                if '%0' in s or '%10' in s:
+                    lowblocks[c['plus']].append((s, bytes(c['bytes'])))
         elif fn in encblocks and s:
             encblocks[fn].append((s, want))
             if s[-1] in '\n\r\t':
@@ -183,6 +192,8 @@ def run(ctx):
             ok = not e['err'] and e['out'] == c['out'] and e['port'] == c['port']
             if ok and fn.endswith('check_escaped'):
                 ok = e['out2'] == e['out']
+            if ok and fn in ('encode', 'encode_value'):
+                ok = e['back'] == c['s'] and e['backp'] == c['s']
             if ok and fn == 'parse_host' and c['valid'] and not c['colon']:
                 ok = e['alt'] == e['out'] and e['alt0'] == e['out']
             if not ok:
@@ -199,8 +210,10 @@ def run(ctx):
         target = rng.choice((40, 200, 1000, 8192)) if i % 4 else rng.choice((12, 20, 30))
         parts, n = [], 0
         pool = blocks[plus]
+        lowpool = lowblocks[plus]         # blocks with an escape of one of the lowest octets (%00, %01, %0a, %10)
         while n < target:
-            b = pool[rng.randrange(len(pool))] if rng.random() < 0.5 else \
+            b = rng.choice(lowpool) if lowpool and rng.random() < 0.15 else \
+                pool[rng.randrange(len(pool))] if rng.random() < 0.5 else \
                 rng.choice(pool[:3000])       # short blocks (many escapes per KB)
             parts.append(b)
             n += len(b[0])
@@ -277,8 +290,10 @@ def run(ctx):
                     if rng.random() < 0.3:
                         bs = bs[:rng.randint(1, len(bs))]           # truncated sequence
                     out.append(''.join('%%%s' % (('%02X' if rng.random() < 0.7 else '%02x') % b) for b in bs))
-                elif t < 0.55:
+                elif t < 0.5:
                     out.append('%' + rng.choice(HEX) + rng.choice(HEX))
+                elif t < 0.55:          # the lowest and the highest octets
+                    out.append(rng.choice(('%00', '%00', '%01', '%0A', '%0a', '%10', '%7F', '%7f', '%80', '%FF', '%ff', '\x00')))
                 elif t < 0.7:
                     out.append(rng.choice(('%', '%%', '%G1', '%1G', '%4', '%+1', '% 41', '%４1', '%u0041', '%é')))
                 else:
